@@ -163,6 +163,20 @@ func VH_C12_Convert(p []int) {
 		in = pa
 	case 13:
 		in = 42
+	case 14:
+		in = &vhAliasStack{} // non-nil pointer to a zero-valued alias
+	case 15:
+		in = &Stack{}
+	case 16:
+		in = &vhAliasCond{}
+	case 17:
+		a := vhAliasStack(base)
+		pa := &a
+		in = &pa // pointer to pointer to alias: flattened like any pointer chain
+		wantS = true
+	case 18:
+		var z vhAliasStackS
+		in = z
 	}
 	s, okS := ConvertStack(in)
 	c, okC := ConvertCondition(in)
@@ -178,5 +192,13 @@ func VH_C12_Convert(p []int) {
 	} else {
 		verifAssert(c.IsZero(), "ConvertCondition-zero-on-failure")
 	}
+	// a holder of such a value must stay usable and agree with the verdict
+	h := List().Push("lead", in)
+	_ = h.String()
+	_, _ = h.Unmarshal()
+	h.Traverse(1, 0)
+	verifAssert(h.IsNesting() == wantS, "holder-IsNesting")
+	verifAssert(Cond("k", Eq, in).IsNesting() == wantS, "condition-holder-IsNesting")
 	verifReach("end")
 }
+
